@@ -243,3 +243,39 @@ def finite_view_slice(a0: int, a1: int, j: int, n: int) -> bool:
         if not _same(view[k, j, n], exp[k, j]):
             return False
     return _once(log)
+
+
+def dependent_elements_in_one_request(n: int, use_list: int) -> bool:
+    """
+    pre: 0 <= n <= 3 and 0 <= use_list <= 1
+    post: _
+    """
+    # element (0, n) is defined through (1, n), which comes LATER in the same multi-element request
+    log = []
+
+    def ev(i, k):
+        log.append((int(i), int(k)))
+        if i == 0:
+            return s[1, k] + 100
+        return 1000 + 10 * k
+
+    s = BlockSeries(eval=ev, shape=(2,), n_infinite=1)
+    r = s[[0, 1], n] if use_list else s[:, n]
+    vals = list(r.data)
+    return vals == [1100 + 10 * n, 1000 + 10 * n] and len(log) == len(set(log)) == 2
+
+
+def downward_recurrence_list_request(top: int) -> bool:
+    """
+    pre: 1 <= top <= 4
+    post: _
+    """
+    log = []
+
+    def ev(k):
+        log.append(int(k))
+        return 1 if k >= top else b[k + 1] + 1
+
+    b = BlockSeries(eval=ev, shape=(), n_infinite=1)
+    r = b[list(range(top + 1))]
+    return list(r.data) == [top - k + 1 for k in range(top + 1)] and len(log) == len(set(log))
